@@ -54,6 +54,10 @@ class Hooks(object):
     def should_inline(self, I, name, fn):
         return True
 
+    def unroll_for(self, I, fn, header):
+        """Number of exactly interpreted iterations of the loop at `header` before it is abstracted (default: the same for all)."""
+        return self.unroll
+
     def on_backedge(self, I, st, header):
         pass
 
@@ -956,7 +960,7 @@ class Interp(object):
                 self.h.on_backedge(self, st, dst)
                 self.end_path(st, 'backedge', info=(fn.name, dst))
                 return 'end'
-            if rec[0] >= self.h.unroll:
+            if rec[0] >= self.h.unroll_for(self, fn, dst):
                 widen_now = True
             rec[0] += 1
         elif dst in loops and (dst not in fr.loops or (fr.loops[dst][1] and getattr(self.h, 'reenter_loops', True))):
@@ -980,7 +984,7 @@ class Interp(object):
         if first_entry:
             snap = dict((('phi', k), v) for k, v in newvals.items())
             fr.loops[dst][2] = snap                    # values on loop entry (+ '__guards__')
-            if self.h.widen_on_entry:
+            if self.h.widen_on_entry and self.h.unroll_for(self, fn, dst) == self.h.unroll:
                 widen_now = True
             else:
                 slots, _c, _w, _s = self.carried_slots(st, fr, dst, phis, newvals)
@@ -1233,6 +1237,29 @@ class Interp(object):
                             used.append((name, rel, ev))
                         else:
                             self.inv_disabled.add(k2)
+                if nv.kind == 'u' and nv.bits == 64:
+                    # an index into NUL-terminated text (text[i] instead of *p): at or before the terminator / strictly before it,
+                    # relative to each pointer into that text currently held in a register (verified like every other candidate)
+                    for oid2, o2 in list(st.objs.items()):
+                        Lc2 = o2.attrs.get('cstr_len')
+                        if Lc2 is None or o2.attrs.get('cstr_eb', 1) != 1:
+                            continue
+                        bases = []
+                        for v2 in list(fr.regs.values()):
+                            if isinstance(v2, PtrV) and v2.obj == oid2 and v2.off not in bases and len(bases) < 3:
+                                bases.append(v2.off)
+                        for bo in bases:
+                            for kk in (1, 0):
+                                rel = 'ixcstr%d:%s:%s' % (kk, oid2.split('#')[0], re.sub(r'#\d+', '#', repr(bo)))
+                                k2 = key0 + (name, rel)
+                                if k2 in self.inv_disabled:
+                                    continue
+                                bound = Lc2 - bo - kk
+                                if st.is_ge0(bound - nv.lin) is True:
+                                    st.assume_ge0(bound - w.lin)
+                                    used.append((name, rel, IntV(nv.bits, bound, 'u')))
+                                else:
+                                    self.inv_disabled.add(k2)
                 if nv.kind == 'u':
                     for gi, T in enumerate(guards):
                         if not isinstance(T, Lin):
